@@ -418,7 +418,7 @@ func (sp *specParser) parsePostfix() *Expr {
 		case sp.isOp("."):
 			sp.next()
 			t := sp.next()
-			if t.kind != "id" && t.kind != "num" {
+			if t.kind != "id" && t.kind != "num" && !(t.kind == "op" && t.text == "*") {
 				panic(fmt.Errorf("expected selector at %d in %q", t.pos, sp.src))
 			}
 			e = &Expr{Kind: ESel, Op: t.text, Args: []*Expr{e}}
